@@ -377,6 +377,29 @@ ExecS(s, w, top) ==
 Exec(ss, i, w, top) == IF i > Len(ss) THEN w ELSE Exec(ss, i + 1, ExecS(ss[i], w, top), top)
 Run(stmts, val, cont, mem) == Exec(stmts, 1, EmptyWorld(val, cont, mem), TRUE)
 
+(* ---------------------- explicit signal names (C13) ---------------------- *)
+\* signal names written in the program text
+RECURSIVE SigsE(_)
+TS(t) == IF "s" \in DOMAIN t THEN {t.s} ELSE {}
+SigsE(e) == CASE e.k = "bin" -> SigsE(e.l) \cup SigsE(e.r)
+              [] e.k = "un" -> SigsE(e.e)
+              [] e.k \in {"proj", "lit"} -> SigsE(e.e) \cup TS(e.t)
+              [] e.k = "cond" -> SigsE(e.c) \cup SigsE(e.v)
+              [] e.k = "blit" -> UNION {SigsE(e.es[i]) : i \in DOMAIN e.es}
+              [] e.k = "sel" -> SigsE(e.b) \cup {e.t}
+              [] e.k \in {"any", "all"} -> SigsE(e.b)
+              [] e.k = "call" -> UNION {SigsE(e.args[i]) : i \in DOMAIN e.args}
+              [] OTHER -> {}
+RECURSIVE SigsS(_)
+SigsS(s) == CASE s.k = "in" -> IF s.t = "" THEN {} ELSE {s.t}
+              [] s.k \in {"int", "let", "expr", "prop"} -> SigsE(s.e)
+              [] s.k = "mem" -> IF s.t = "" THEN {} ELSE {s.t}
+              [] s.k = "write" -> SigsE(s.e) \cup SigsE(s.a) \cup SigsE(s.b)
+              [] s.k \in {"func", "for"} -> UNION {SigsS(s.body[i]) : i \in DOMAIN s.body}
+              [] OTHER -> {}
+ExplicitOf(ss) == UNION {SigsS(ss[i]) : i \in DOMAIN ss}
+
+
 (* ------------------------- twin transformations ------------------------- *)
 (* "its unrolling" and "the manually inlined twin" have ONE formal meaning: *)
 (* syntactic substitution with locals renamed apart.                        *)
@@ -451,4 +474,21 @@ InlineS(s, top, tag, idx) ==
   ELSE IF s.k = "for" THEN <<[s EXCEPT !.body = InlineB(s.body, top, tag)]>>
   ELSE <<s>>
 Inline(stmts) == InlineB(stmts, stmts, "_c")
+
+\* RenameImplicit: every untyped value gets a fresh, otherwise unused explicit type
+FreshTypes == <<"signal-0", "signal-1", "signal-2", "signal-3", "signal-4", "signal-5", "signal-6", "signal-7", "signal-8", "signal-9",
+                "signal-red", "signal-green", "signal-blue", "signal-yellow", "signal-pink", "signal-cyan", "signal-white", "signal-grey", "signal-black",
+                "signal-check", "signal-info", "signal-dot", "signal-heart", "signal-skull", "signal-star", "signal-moon", "signal-sun", "signal-fire",
+                "signal-lock", "signal-unlock", "signal-fuel", "signal-liquid", "signal-mining", "signal-weapon", "signal-damage", "signal-speed",
+                "signal-ghost", "signal-recycle", "signal-explosion", "signal-alarm", "signal-alert", "signal-clock", "signal-hourglass">>
+IsUntyped(s) == (s.k = "in" /\ s.t = "") \/ (s.k = "let" /\ s.ty = "Signal" /\ s.e.k = "num") \/ (s.k = "mem" /\ s.t = "")
+RenameImplicit(ss) ==
+  LET used == ExplicitOf(ss)
+      free == SelectSeq(FreshTypes, LAMBDA t : t \notin used)
+      rank(i) == Cardinality({j \in 1..i : IsUntyped(ss[j])})
+  IN [i \in DOMAIN ss |->
+        IF ~IsUntyped(ss[i]) \/ rank(i) > Len(free) THEN ss[i]
+        ELSE IF ss[i].k = "in" THEN [ss[i] EXCEPT !.t = free[rank(i)]]
+        ELSE IF ss[i].k = "mem" THEN [ss[i] EXCEPT !.t = free[rank(i)]]
+        ELSE [ss[i] EXCEPT !.e = Lit(TName(free[rank(i)]), ss[i].e)]]
 =============================================================================
